@@ -12,10 +12,78 @@ TW = "bluesky.callbacks.tiled_writer"
 CO = "bluesky.consolidators"
 
 
+def d4_per_datum_chunking_only_under_concat(ctx, repo):
+    """The advertised chunks must add up to the shape.  `shape` has the leading dimension _num_rows * datum_shape[0] exactly when
+    join_method == 'concat' (otherwise it is _num_rows); the per-datum chunking `list_summands(datum_shape[0], ..., repeat=_num_rows)`
+    adds up to _num_rows * datum_shape[0].  So the branch that uses it must imply join_method == 'concat' - decided by enumerating
+    the truth table of the conditions guarding it (join_method in {stack, concat}; every other condition free)."""
+    import itertools
+
+    from .. import booleval
+
+    rule = "C36.D4-per-datum-chunks-only-under-concat"
+    f = repo.func(CO, "ConsolidatorBase.chunks")
+    sh = repo.func(CO, "ConsolidatorBase.shape")
+    t = A.norm(sh.node)
+    ok = "self.join_method == 'concat'" in t and "self._num_rows * self.datum_shape[0]" in t
+    ctx.ob(rule, cname(sh, None, "shape: leading dimension is _num_rows * datum_shape[0] under concat, _num_rows otherwise"), ok,
+           "" if ok else "shape changed: the rule's premise no longer holds", where=where(sh, sh.node))
+    sites = [c for c in A.calls_in(f.node) if A.call_name(c) == "list_summands" and A.kw(c, "repeat") is not None and "self._num_rows" in A.norm(A.kw(c, "repeat"))]
+    ctx.ob(rule, cname(f, None, "per-datum chunking site"), len(sites) >= 1, "" if sites else "no per-datum chunking left", where=where(f, f.node))
+    pm = A.parents(f.node)
+    for c in sites:
+        guards = []  # (test, polarity)
+        n = c
+        while n in pm:
+            parent = pm[n]
+            if isinstance(parent, ast.If):
+                in_body = any(n is x for x in parent.body)
+                in_else = any(n is x for x in parent.orelse)
+                if in_body or in_else:
+                    guards.append((parent.test, in_body))
+            if isinstance(parent, ast.IfExp):
+                if n is parent.body:
+                    guards.append((parent.test, True))
+                elif n is parent.orelse:
+                    guards.append((parent.test, False))
+            n = parent
+        # leaves
+        leaves = {}
+        def collect(e):
+            if isinstance(e, ast.BoolOp):
+                for v in e.values:
+                    collect(v)
+            elif isinstance(e, ast.UnaryOp) and isinstance(e.op, ast.Not):
+                collect(e.operand)
+            else:
+                leaves[A.norm(e)] = e
+        for tst, _ in guards:
+            collect(tst)
+        method_atoms = {"self.join_method == 'stack'": "stack", "self.join_method == 'concat'": "concat",
+                        "self.join_method != 'stack'": "!stack", "self.join_method != 'concat'": "!concat"}
+        free = [k for k in leaves if k not in method_atoms]
+        bad = None
+        for method in ("stack", "concat"):
+            for vals in itertools.product([True, False], repeat=len(free)):
+                env = dict(zip(free, vals))
+                for k, m in method_atoms.items():
+                    env[k] = (method != m[1:]) if m.startswith("!") else (method == m)
+                reach = all((booleval.ev(tst, env) is True) == pol for tst, pol in guards) if guards else True
+                if reach and method != "concat":
+                    bad = (method, {k: v for k, v in env.items() if k in free})
+                    break
+            if bad:
+                break
+        ok = bad is None
+        ctx.ob(rule, cname(f, c), ok,
+               "" if ok else f"reached with join_method == {bad[0]!r} (other conditions {bad[1]}): the chunks along dimension 0 add up to _num_rows * datum_shape[0] "
+               "but the shape's leading dimension is _num_rows", nontrivial=True, where=where(f, c))
+
+
 def run(ctx):
     repo = ctx.repo
     ctx.explanation = (
-        "Consolidator shape / chunks arithmetic is NOT decided. Decided: D1 in concatenate_stream_datums the result's indices and seq_nums "
+        "Consolidator shape / chunks arithmetic is NOT decided beyond D4 (the per-datum chunking branch of `chunks` is reachable only under join_method == 'concat', the case in which `shape` has the matching leading dimension). Decided: D1 in concatenate_stream_datums the result's indices and seq_nums "
         "are built with the same selectors (start from the first, stop from the last document after one sort by start index), and "
         "descriptor / stream_resource / uid come from the input; D2 the uniqueness tests on descriptor and stream_resource and the "
         "contiguity loop over consecutive pairs all dominate the construction of the result and raise ValueError; a single document is "
@@ -67,6 +135,8 @@ def run(ctx):
             ok = "super().consume_stream_datum(doc)" in A.norm(fn.node)
             ctx.ob("C36.D3-seqnum-to-row", cname(fn, None, "subclass keeps the base bookkeeping"), ok, "" if ok else "subclass drops the row / seq_num bookkeeping", where=where(fn, fn.node))
 
+    d4_per_datum_chunking_only_under_concat(ctx, repo)
+
 
 CLAIM = {
     "text": "Does not decide consolidator shape / chunk arithmetic. Decides that concatenate_stream_datums builds its index and seq_num ranges with the "
@@ -77,6 +147,7 @@ CLAIM = {
 
 T = "callbacks/tiled_writer.py"
 MUTANTS = [
+    ("per-datum chunking also for stacked datums (seed C36-b)", [("consolidators.py", "                self.join_method == \"stack\"\n                or (self.join_method == \"concat\" and self.join_chunks)", "                (self.join_method == \"concat\" and self.join_chunks)")], "C36.D4"),
     ("seq_nums taken from the wrong end", [(T, "        seq_nums=StreamRange(start=docs[0][\"seq_nums\"][\"start\"], stop=docs[-1][\"seq_nums\"][\"stop\"]),", "        seq_nums=StreamRange(start=docs[-1][\"seq_nums\"][\"start\"], stop=docs[-1][\"seq_nums\"][\"stop\"]),")], "C36.D1"),
     ("documents not sorted", [(T, "    docs = tuple(sorted(docs, key=lambda doc: doc[\"indices\"][\"start\"]))\n", "")], "C36.D1"),
     ("contiguity only checked for the first pair", [(T, "    for d1, d2 in zip(docs[:-1], docs[1:]):  # TODO: use itertools.pairwise(docs) in python 3.10+", "    for d1, d2 in zip(docs[:1], docs[1:2]):  # TODO: use itertools.pairwise(docs) in python 3.10+")], "C36.D2"),
